@@ -1237,6 +1237,9 @@ class Analyzer:
                                 if cur_[0] == "byte":
                                     base_, pos_ = self.cell_index[self.byte_loc(st, cur_)]
                                     st.mem["ghost:ld:" + dst] = Int(pos_); self.load_base[dst] = base_
+                                    if self.record and any(pc_ == "<load>" and (pin_ is None or fname == pin_ or fname.startswith(pin_ + "::{closure")) for (pc_, pin_) in self.probe_spec):
+                                        PROBES.append(dict(site=f"{site_prefix}{fname}@bb{bb}", kind="load", callee="<load>", fn=fname, args=[], lens={}, C=st.C.copy(), at=s.get("at"),
+                                                           base=base_, pos=pos_, mem={k2: v2 for k2, v2 in st.mem.items() if isinstance(v2, (Int, Enum, Bool, VecVal))}, fr=fr, bb=bb))
                             except Unmodelled:
                                 pass
                         elif not spl["proj"] and ("ghost:ld:" + f"{fr}._{spl['local']}") in st.mem:
@@ -1337,6 +1340,15 @@ class Analyzer:
             raise Unmodelled("indirect call")
         path = callee.get("resolved") or callee["path"]
         results = None
+        if self.record and self.probe_spec and self.track_loads:
+            # a buffer element handed by reference to a callee counts as a load of that element
+            for (pc, pin) in self.probe_spec:
+                if pc == "<load>" and (pin is None or f["key"] == pin or f["key"].startswith(pin + "::{closure")):
+                    for a_ in args:
+                        if isinstance(a_, Ref) and a_.loc in self.cell_index:
+                            base_, pos_ = self.cell_index[a_.loc]
+                            PROBES.append(dict(site=site, kind="load", callee="<load>", fn=f["key"], args=[], lens={}, C=st.C.copy(), at=t.get("at"), base=base_, pos=pos_,
+                                               mem={k: v for k, v in st.mem.items() if isinstance(v, (Int, Enum, Bool, VecVal))}, fr=fr, bb=bb))
         if self.record and self.probe_spec:
             for (pc, pin) in self.probe_spec:
                 if (path == pc or path.endswith(pc)) and (pin is None or f["key"] == pin or f["key"].split("@")[0] == pin):
